@@ -12,13 +12,15 @@ IMPORTS = {
         ("C07", ["C07.D1", "C07.W1", "C07.W2", "C07.W3"], "no infinitely sized types: every containment cycle is cut"),
         ("C17", ["C17.D1"], "forwarding impls (newtype/untagged FromStr, Display, Default) are emitted wherever has_impl answers true for the inner type: a false `true` yields an impl that does not type-check"),
         ("C19", ["C19.T2", "C19.D1"], "no conflicting or missing Deserialize impls; no derive that cannot be derived"),
-        ("C06", ["C06.D1", "C06.D2", "C06.W2"], "a default the validator accepts is one the renderer can render (no panic while rendering, no ill-typed default expression) and every shared default fn the output names is defined"),
+        ("C06", ["C06.D1", "C06.D2", "C06.W1", "C06.W2"], "a default the validator accepts is one the renderer can render (no panic while rendering, no ill-typed default expression) and every shared default fn the output names is defined"),
         ("C14", ["C14.D1"], "the two places that decide how a map type is rendered agree, so the `skip_serializing_if` predicate names a method of the field's actual type"),
     ],
     "C02": [
         ("C10", ["C10.D1", "C10.D2", "C10.D3", "C10.D4", "C10.D6", "C10.D7"], "the scalar chosen can represent every admitted value, so every valid number/string deserializes"),
+        ("C09", ["C09.D5", "C09.D1"], "a merge does not drop enum values of the right JSON type and does not declare a satisfiable conjunction empty: instances valid under the allOf stay representable"),
     ],
     "C03": [
+        ("C08", ["C08.D2"], "two properties that sanitise to one field are rejected, not silently merged: no declared member is dropped on the round trip"),
         ("C02", ["C02.W5", "C02.D2"], "sibling subschemas keep types of their own (a value is not rewritten through a sibling's type); an anyOf is only treated as a oneOf when no two alternatives overlap, so no member is dropped by a shadowing variant"),
     ],
     "C05": [
